@@ -21,6 +21,7 @@ var Registry = map[string]func(Tier) int{
 	"C18": C18,
 	"C16": C16,
 	"C17": C17,
+	"C14": C14,
 }
 
 // Systems used by `pcheck replay` to re-execute graph replays by name.
